@@ -82,7 +82,7 @@ Inductive fail :=
   | FWrite          (* errCorrupt: writeEntryAt bounds *)
   | FBeyond         (* errCorrupt: duplicate walk met an entry it cannot read *)
   | FCycle          (* errCorrupt: duplicate walk exceeded its bound *)
-  | FRange.         (* model limit: offsets would leave the 32-bit range *)
+  | FRange.         (* errCorrupt: the reservation would pass 4 GiB (uint32 overflow, fix 633eed3) *)
 
 Inductive result := RCell (off : N) | RFail (e : fail).
 
@@ -287,7 +287,9 @@ Definition step_thread (me : nat) (f : file) (t : thread) : option act * thread 
   | PLimit =>
       let lim := f_limit f in
       let '(s, e) := place lim (t_nm t) in
-      if W32 <=? e + PAGE then (None, ret_fail FRange t)
+      (* fix 633eed3: `start < limit || end < start || round(end, pageSize) < end` in uint32, i.e. the page
+         end of the record, computed without wrap-around, does not fit 32 bits *)
+      if W32 <=? round e PAGE then (None, ret_fail FRange t)
       else if t_map t <? e then (None, set_pc EStat (set_end e t))
       else (None, set_pc PCas (set_lim lim (set_start s (set_end e t))))
   | EStat => (None, set_pc EWrite (set_sz (f_size f) t))
